@@ -154,13 +154,27 @@ def gen_ops(rng, sc, length, kinds):
     """Operation scripts (instance ids are indices into the list of live instances)."""
     ops = []
     ninst = 1
+    xobj_inst = []     # executor objects created so far: the instance each belongs to
     n = sc["n"]
     setups = [i for i, s in enumerate(sc["specs"]) if s["setup"]]
     for _ in range(length):
         k = rng.choice(kinds)
         inst = rng.randrange(ninst)
         args = rng.choice([(1,), (2, 3), (5, 6), (13,), (13, 1), (4,), ((7, 8),), ((7, 8), 2), ({"k": 5},)])
-        if k == "call":
+        if k in ("xrun", "xsetup") and not xobj_inst:
+            k = "xmk"
+        if k == "xmk":
+            # an executor object is built now and run LATER (other operations on the instance come in between)
+            T = None if rng.random() < 0.4 else sorted(rng.sample(range(n), rng.randint(1, min(3, n))))
+            ops.append(dict(op="xmk", inst=inst, T=T, xid=len(xobj_inst)))
+            xobj_inst.append(inst)
+        elif k == "xrun":
+            xid = rng.randrange(len(xobj_inst))
+            ops.append(dict(op="xrun", inst=xobj_inst[xid], xid=xid, args=args))
+        elif k == "xsetup":
+            xid = rng.randrange(len(xobj_inst))
+            ops.append(dict(op="xsetup", inst=xobj_inst[xid], xid=xid))
+        elif k == "call":
             ops.append(dict(op="call", inst=inst, args=args))
         elif k == "exec":
             # an EMPTY selection is a selection too (nothing runs; it is not "no selection")
@@ -246,6 +260,7 @@ def run_history(sc, ops):
     I.add(build(sc))
     records, lines = [], []
     setups = [i for i, s in enumerate(sc["specs"]) if s["setup"]]
+    execs = {}
     for op in ops:
         inst = op["inst"]
         d = I.dags[inst]
@@ -286,6 +301,24 @@ def run_history(sc, ops):
             rec["out"] = attempt(lambda: d.executor(target_nodes=ids(op["T"]))(*op["args"]))
             rec["line"] = len(lines); lines.append("O %d call %d %s %d %s" % (inst, len(sel), " ".join(map(str, sel)), len(op["args"]),
                                                    " ".join(enc(a) for a in op["args"])))
+        elif op["op"] == "xmk":
+            T = op["T"]
+            sel = list(range(n)) if T is None else anc_closure(sc, T)
+            execs[op["xid"]] = (d.executor(target_nodes=None if T is None else ids(T)), T)
+            rec["out"] = ("NOOP",)
+            lines.append("O %d xmk %d %d %s" % (inst, op["xid"], len(sel), " ".join(map(str, sel))))
+            records.append(rec)
+            continue
+        elif op["op"] == "xrun":
+            ex = execs[op["xid"]][0]
+            rec["out"] = attempt(lambda: ex(*op["args"]))
+            rec["line"] = len(lines); lines.append("O %d xrun %d %d %s" % (inst, op["xid"], len(op["args"]),
+                                                   " ".join(enc(a) for a in op["args"])))
+        elif op["op"] == "xsetup":
+            ex, T = execs[op["xid"]]
+            sel = setups if T is None else [i for i in anc_closure(sc, T) if sc["specs"][i]["setup"]]
+            rec["out"] = attempt(lambda: ex.setup())
+            rec["line"] = len(lines); lines.append("O %d setup %d %s" % (inst, len(sel), " ".join(map(str, sel))))
         elif op["op"] == "setup":
             T = op["T"]
             sel = setups if T is None else [i for i in anc_closure(sc, T) if sc["specs"][i]["setup"]]
